@@ -60,6 +60,40 @@ def run(ctx):
     tr = ctx.tmp("scenarios.ndjson")
     ok, n = validate(ctx, asan, ["script", sc, tr], tr, "gated scenarios")
     ctx.sample({"kind": "gated scenario", "script": json.loads(open(sc).readline())})
+    # 2b. spec -> code with schedules: random behaviours of the interleaving model (tlc -simulate) replayed on the real pool,
+    #     every thread held at its hook points until the behaviour says it is its turn; traces validated as always
+    n_beh = 150 if ctx.quick() else 3000
+    scripts = []
+    for cfg in ("Gen_01.cfg", "Gen_12.cfg", "Gen_02.cfg"):
+        behs = ctx.tlc_gen("ThreadPool", "Gen_ThreadPool.tla", cfg, simulate=(10 ** 7, 300), timeout=6 if ctx.quick() else 40, workers=2,
+                           limit=n_beh // 3)
+        for h in behs:
+            ops = []
+            for e in h:
+                o = e["o"]
+                if o["k"] == "init":
+                    ops.append({"o": "init", "min": o["min"], "max": o["max"], "call": True})
+                elif o["k"] == "exec":
+                    ops.append({"o": "exec", "t": o["t"], "prio": o["lvl"] - 2, "cb": o["cb"], "call": True})
+                elif o["k"] in ("status", "cancel"):
+                    ops.append({"o": o["k"], "t": o["t"], "call": True})
+                elif o["k"] == "cleanup":
+                    ops.append({"o": "cleanup", "call": True})
+                elif o["k"] == "spin":
+                    ops.append({"o": "spin", "n": 1, "call": True})
+            scripts.append({"ops": ops, "schedule": [{"r": e["r"], "p": e["p"]} for e in h]})
+    sp = ctx.tmp("schedules.jsonl")
+    with open(sp, "w") as f:
+        for x in scripts:
+            f.write(json.dumps(x) + "\n")
+    tr = ctx.tmp("schedules.ndjson")
+    ok, n = validate(ctx, asan, ["script", sp, tr], tr, "replay of %d model behaviours as schedules" % len(scripts))
+    if ok:
+        ctx.traces_ok -= n
+        ctx.replays_ok += n
+        div = sum(json.loads(l).get("seq_diverged", 0) for l in open(tr) if l.startswith('{"e":"end"'))
+        ctx.notes.append("schedule replay: %d behaviours, %d abandoned before their end (the code could not follow: e.g. notify_one woke another waiter)" % (n, div))
+    ctx.sample({"kind": "model behaviour replayed as a schedule", "script": scripts[0]})
     # 3. random scripts with perturbed schedules under TSan, and under ASan
     n_tsan, n_asan = (500, 150) if ctx.quick() else (8000, 2000)
     tr = ctx.tmp("random_tsan.ndjson")
